@@ -79,6 +79,17 @@ def cstr(x):
     return repr(x)
 
 
+def show(x):
+    """like cstr but keeps dictionary insertion order (a reordering is a mutation too)"""
+    if isinstance(x, dict):
+        return '{' + ', '.join('%s: %s' % (show(k), show(v)) for k, v in x.items()) + '}'
+    if isinstance(x, list):
+        return '[' + ', '.join(show(y) for y in x) + ']'
+    if isinstance(x, tuple):
+        return '(' + ', '.join(show(y) for y in x) + ')'
+    return cstr(x)
+
+
 def outcome(fn, limit=5):
     r = common.call_impl(fn, limit)
     if r[0] == 'ok':
@@ -733,39 +744,40 @@ def call_once(obj, method, a, kw, limit=5):
     mutated = []
     for nm, v, b, s in zip(names, vals, before, shown):
         if fp(v) != b:
-            mutated.append('%s: %s -> %s' % (nm, cstr(s) if s is not None else '?', cstr(v)))
+            mutated.append('%s: %s -> %s' % (nm, show(s) if s is not None else '?', show(v)))
     return out, mutated
 
 
 def run_case(key, seed, tmap=None, fresh_only=False):
-    """-> dict(problems=[...], fresh=outcome, info=...)"""
+    """-> dict(problems=[...], fresh=outcome of a fresh object, after=outcome of the shared object after its history)
+
+    Order matters: the history (including the near-probe calls) runs BEFORE the probe input is ever seen by this
+    process, so that state kept anywhere (instance, class, module) by the earlier calls can show in the probe's
+    answer; the reference answers are a fresh object (computed afterwards) and a fresh interpreter (fresh_only)."""
     tmap = tmap or target_map()
     rec = tmap[key]
     label, ctor, method, args, flags = rec
     problems = []
     probe = lambda: args(random.Random('probe/%s' % seed))
-    # fresh object, probe input
-    a, kw = probe()
-    fresh_obj, _ = build(rec, seed)
-    if flags.get('singleton'):
-        import copy
-        try:
-            fresh_obj = copy.deepcopy(fresh_obj)        # a private copy stands for "a fresh object"
-        except Exception:   # noqa
-            pass
-    r0, mut = call_once(fresh_obj, method, a, kw)
+
+    def fresh_answer():
+        a, kw = probe()
+        fresh_obj, _ = build(rec, seed)
+        if flags.get('singleton'):
+            import copy
+            try:
+                fresh_obj = copy.deepcopy(fresh_obj)        # a private copy stands for "a fresh object"
+            except Exception:   # noqa
+                pass
+        return call_once(fresh_obj, method, a, kw)
     if fresh_only:
-        return dict(problems=[], fresh=r0)
-    for m in mut:
-        problems.append(('mutation', 'probe call on a fresh object changed its argument %s' % m))
-    if r0 == ('err', 'TIMEOUT'):
-        return dict(problems=problems, fresh=r0, skipped='timeout')
+        return dict(problems=[], fresh=fresh_answer()[0])
     # shared object with a history
     shared, given = build(rec, seed)
     ctor_before = fp(given) if given is not None else None
     hrng = random.Random('hist/%s' % seed)
     others = targets()[0]
-    n_hist = hrng.randint(1, 5)
+    n_hist = hrng.randint(1, 3)
     for i in range(n_hist):
         if hrng.random() < 0.65:
             ha_, hkw = args(random.Random('h%d/%s' % (i, seed)))
@@ -779,21 +791,45 @@ def run_case(key, seed, tmap=None, fresh_only=False):
             _, mut = call_once(oobj, orec[2], oa, okw, limit=3)
             for m in mut:
                 problems.append(('mutation', 'call of %s (history step %d) changed its argument %s' % (okey, i, m)))
+    # near-probe calls: the probe input with exactly one component taken from another input (same profile with another
+    # seat count, same seat count with another profile, other prev_gains / max_seats ...)
+    na, nkw = args(random.Random('near/%s' % seed))
+    pa, pkw = probe()
+    variants = []
+    if len(na) == len(pa):
+        for j in range(len(pa)):
+            variants.append((tuple(na[i] if i == j else pa[i] for i in range(len(pa))), dict(pkw)))
+    for k_ in sorted(set(pkw) | set(nkw)):
+        kk = dict(pkw)
+        if k_ in nkw:
+            kk[k_] = nkw[k_]
+        else:
+            kk.pop(k_, None)
+        variants.append((pa, kk))
+    hrng.shuffle(variants)
+    for va, vkw in variants[:3]:
+        _, mut = call_once(shared, method, va, vkw)
+        for m in mut:
+            problems.append(('mutation', 'near-probe call changed its argument %s' % m))
     a1, kw1 = probe()
     r1, mut = call_once(shared, method, a1, kw1)
     for m in mut:
-        problems.append(('mutation', 'probe call after history changed its argument %s' % m))
+        problems.append(('mutation', 'probe call after %d earlier calls changed its argument %s' % (n_hist + len(variants[:3]), m)))
     a2, kw2 = probe()
     r2, _ = call_once(shared, method, a2, kw2)
-    timeouts = ('err', 'TIMEOUT') in (r1, r2)
+    r0, mut = fresh_answer()
+    for m in mut:
+        problems.append(('mutation', 'probe call on a fresh object changed its argument %s' % m))
+    timeouts = ('err', 'TIMEOUT') in (r0, r1, r2)
     if not flags.get('random') and not timeouts:
         if r1 != r0:
-            problems.append(('history', 'answer after %d earlier calls differs from a fresh object: %s vs fresh %s' % (n_hist, r1, r0)))
+            problems.append(('history', 'answer after %d earlier calls differs from a fresh object: %s vs fresh %s'
+                             % (n_hist + len(variants[:3]), r1, r0)))
         if r2 != r1:
             problems.append(('repeat', 'second identical call answers %s, the first %s' % (r2, r1)))
     if ctor_before is not None and fp(given) != ctor_before:
-        problems.append(('ctor-data', 'the data the object was constructed with changed, now: %s' % cstr(given)[:300]))
-    return dict(problems=problems, fresh=r0, ok=r0[0] == 'ok', random=bool(flags.get('random')))
+        problems.append(('ctor-data', 'the data the object was constructed with changed, now: %s' % show(given)[:300]))
+    return dict(problems=problems, fresh=r0, after=r1, ok=r0[0] == 'ok', random=bool(flags.get('random')), timeout=timeouts)
 
 
 # ---------------------------------------------------------------- module-level objects and defaults
